@@ -342,6 +342,9 @@ def run(rep, tier):
     for d in prof.CATALOGUE_DOC:
         rep.assume("catalogue: " + d)
     rep.assume("header constant re-exports of hyper::header follow the http crate's naming (CONTENT_TYPE = \"content-type\")")
+    # XML payload strings arrive exactly (byte level of the decoder): shared native sweep of C13
+    import C13
+    C13.byte_level(rep, meaning=False)
     kspec.run_spec(rep, "C02", tier, budget_s=200)
     rep.out("the s3s-aws proxy/conversion path (aws-sdk types, no independent oracle in the sandbox); XML payload content (C13); "
             "aws-chunked/multipart body transformation (C08-C10); value-level parsing beyond the Kani leaf bounds")
